@@ -592,7 +592,9 @@ func (e *plExec) mutate(cmd string, a []string, line string) (out string) {
 		if e.msgs[atoi(a[0])] != nil {
 			return "unsupported"
 		}
-		e.msgs[atoi(a[0])] = acmelib.NewMessage("m"+a[0], acmelib.MessageID(atoi(a[0])), atoi(a[1]))
+		// message ids and names are unique per interface only: detached messages may share them, and
+		// nothing may be keyed by either
+		e.msgs[atoi(a[0])] = acmelib.NewMessage(sprintf("m%d", atoi(a[0])%3), acmelib.MessageID(1+atoi(a[0])%2), atoi(a[1]))
 		return "ok"
 	case "msg.app", "msg.ins":
 		m := e.msgs[atoi(a[0])]
